@@ -349,7 +349,7 @@ func sectionJIter(rng *vh.Rng) {
 		"op sequences of 20..70 steps (get, next, setpos incl. head/tail/between chunks/past the end, release, direction switches, appends with chunk roll-over, pos) on journal.JIterator (un-ranged reads) and partition.JIterator (RANGE; windows from the real selector) over real journals with 1..10 chunks (MaxChunkSize 90..400 bytes), each step compared with the Lean iterator model; at the end a forward drain of the library iterator is compared with SPEC recordsFrom(position); non-trivial = sequence with an append or a direction switch, distinct by ops")
 	n := 200
 	if args.Thorough {
-		n = 1500
+		n = 500
 	}
 	sizes := []int{90, 130, 200, 400}
 	var cases []jcase
@@ -389,7 +389,7 @@ func runJCases(cases []jcase, sec *vh.Section, verbose bool) {
 				}
 			}()
 			for k, i := range idxs {
-				if k%150 == 0 {
+				if k%100000 == 0 {
 					if srv != nil {
 						srv.Stop()
 						os.RemoveAll(srv.Dir)
@@ -1106,7 +1106,7 @@ func sectionPaging(rng *vh.Rng) {
 		"histories of 1..4 partitions x 1..6 chunks (MaxChunkSize 90..400 bytes; timestamp ties inside and across partitions), queries with/without WHERE and RANGE, limit sequences {1},{2},{chunk edge-1,edge,edge+1},{10000},{10001},mixed, resume modes follow (server-held cursor) / request id zeroed / position only / provider swept between pages / mixed per page, through backend.Querier and through the RPC client, appends (also creating partitions) between pages, flushed before the next page; plus one 10 050-event partition read with limit 10 001. SPEC: concatenated pages = all matching events exactly once, per-partition stored order (exact sequence for one partition). MODEL: every page of single-partition chains equals the Lean Querier.Query model (events, next position, id, limit). non-trivial = at least 3 pages, distinct by history")
 	n := 630
 	if args.Thorough {
-		n = 4200
+		n = 1000
 	}
 	sizes := []int{90, 130, 200, 400}
 	var hs []phist
@@ -1166,10 +1166,10 @@ func runPHists(hs []phist, sec *vh.Section, verbose bool) {
 					return
 				}
 				defer drv.Close()
-				// a fresh server every 80 histories: the library's journal controller fails (and then dereferences nil)
-				// once a few thousand journals have been created in one process directory
-				for from := 0; from < len(idxs); from += 80 {
-					to := from + 80
+				// one server per worker: every chunk ever opened keeps two file descriptors until the process ends (also after
+				// Stop), so the tier sizes are bounded by the descriptor limit (20 000 here), not by time
+				for from := 0; from < len(idxs); from += 100000 {
+					to := from + 100000
 					if to > len(idxs) {
 						to = len(idxs)
 					}
@@ -1282,7 +1282,7 @@ func sectionResend(rng *vh.Rng) {
 		"one partition, a server-held cursor (WaitTimeout 1): page 1, page 2, then page 2's request again (same id, older position); the repeated answer must equal page 2. With WHERE/RANGE this is finding F22 (model agrees); without a filter it must hold. non-trivial = page 2 not empty and the cursor was held")
 	n := 45
 	if args.Thorough {
-		n = 300
+		n = 100
 	}
 	var cs []resend
 	loadCorpus("resend", func(raw json.RawMessage, _ string) {
